@@ -1,7 +1,8 @@
 (* Model of attribute write/delete on ONE object (property C02).
 
-   Transcribed from /repo (tree at "fix: return chunked hyperslabs in selection order", dd0af4c; includes the B-tree
-   duplicate-key and the fractal-heap usable-size repairs):
+   Transcribed from /repo (tree at e289eb2; includes the repairs 6c2e9ef B-tree duplicate key, e934eea heap usable
+   size, 3452d53 compact replacement size check, df71171 name length, 5ec600b heap overflow refused, 8199862 attribute
+   info fit checked before the dense structures are written):
      attribute_write.go              writeAttribute, writeCompactAttribute, upsertAttributeMessage,
                                      transitionToDenseAttributes, writeDenseAttribute, deleteAttribute,
                                      deleteCompactAttributeFromHeader, deleteDenseAttributeImpl
@@ -45,7 +46,7 @@ Record value := mkValue {
   vdata  : bytes }.
 Record attr := mkAttr { aname : bytes; aval : value }.
 
-Inductive res := ROk | RErr | RPanic.
+Inductive res := ROk | RErr.
 
 Record params := mkParams {
   p_base   : N;   (* sum of (4 + len data) over the non-attribute messages of the object header *)
@@ -55,11 +56,12 @@ Record params := mkParams {
   p_idxcap : N;   (* calculateMaxRecords: (4096 - 10) / 11 = 371 *)
   p_maxobj : N;   (* MaxManagedObjectSize = 65536 *)
   p_hcap   : N;   (* object bytes a direct block holds on disk: 65536 - (5 + 8 + 2) - 4 = 65517 *)
-  p_ovf_err : bool (* what a heap overflow ([HFull]) does.  false = the current tree: the call returns
-                      success and the dense storage is damaged ([Broken]).  true = the tree with the two
-                      proposed repairs (notes/fixes/dense-heap-overflow-refused.patch: WriteAt/WriteToFile
-                      refuse a heap that outgrew its direct block; C15's usable-block-size patch): the call
-                      returns an error and nothing is written. *)
+  p_ovf_err : bool (* what a heap overflow ([HFull]) does.
+                      true  = the current tree (since 5ec600b "refuse to write a fractal heap that outgrew its
+                              single direct block"): WriteAt / WriteToFile return ErrHeapFull before anything is
+                              written, the call returns an error and nothing changes.
+                      false = the tree before that repair: the call returned success and the dense storage
+                              was damaged ([Broken]); kept so that the finding stays stated and checkable. *)
 }.
 
 (* ------------------------------------------------------------------ encoded message length *)
@@ -83,25 +85,23 @@ Definition ds_len (v : value) : option N :=
 
 Definition blen (b : bytes) : N := N.of_nat (List.length b).
 
-Inductive enc := EncOk (size : N) | EncErr | EncPanic.
+Inductive enc := EncOk (size : N) | EncErr.
 
 (* EncodeAttributeFromStruct / EncodeAttributeMessage:
      name == ""                          -> error
+     len(name) >= 0xFFFF                 -> error  ("attribute name too long": the name size field holds
+                                                    len(name)+1 in 16 bits; since df71171, before that a panic)
      datatype / dataspace encode error   -> error
-     nameSize := uint16(len(name)+1); messageSize := 9 + int(nameSize) + ...; buf := make(messageSize);
-     copy(buf[9:], name); buf[9+len(name)] = 0
-   For len(name)+1 >= 65536 the uint16 wraps, the buffer is too short and the terminator write panics
-   (reproduced: "index out of range [65544] with length 38"). *)
+     messageSize := 9 + (len(name)+1) + len(datatype) + len(dataspace) + len(data) *)
 Definition encode_attr (a : attr) : enc :=
   match aname a with
   | [] => EncErr
   | _ =>
-    match dt_len (aval a), ds_len (aval a) with
-    | Some t, Some s =>
-        if 65535 <=? blen (aname a) then EncPanic
-        else EncOk (9 + (blen (aname a) + 1) + t + s + blen (vdata (aval a)))
-    | _, _ => EncErr
-    end
+    if 65535 <=? blen (aname a) then EncErr
+    else match dt_len (aval a), ds_len (aval a) with
+         | Some t, Some s => EncOk (9 + (blen (aname a) + 1) + t + s + blen (vdata (aval a)))
+         | _, _ => EncErr
+         end
   end.
 
 Definition msg_size (a : attr) : N :=
@@ -186,8 +186,8 @@ Inductive hins := HOk (hp : heap) (id : hid) | HErr | HFull.
      len(data) == 0            -> ErrEmptyObject
      len > MaxManagedObjectSize -> ErrObjectTooLarge
      fits                      -> object at FreeOffset; id = [0 | offset:2 bytes | length:3 bytes | 0 0]
-   [HFull]: the object does not fit into what the direct block can hold on disk.  The Go code does NOT
-   return an error then: between p_hcap and the raw block size the object is accepted and its tail is
+   [HFull]: the object does not fit into what the direct block can hold on disk.  InsertObject itself does NOT
+   return an error then (before 5ec600b neither did the attribute call, see p_ovf_err): between p_hcap and the raw block size the object is accepted and its tail is
    cut off when the block is serialised (prefix 15 + checksum 4 bytes are not accounted for); beyond the
    raw block size InsertObject switches the in-memory heap to an indirect root, puts the object into a
    second block that WriteAt / WriteToFile never writes, and encodes offset 65536+x into two bytes.
@@ -242,7 +242,7 @@ Variable P : params.
 
 (* ---- transitionToDenseAttributes ---- *)
 
-Inductive tres := TOk (ix : idx) (hp : heap) | TErr | TPanic | TFull.
+Inductive tres := TOk (ix : idx) (hp : heap) | TErr | TFull.
 
 (* daw.AddAttribute for the parsed compact attributes, then for the new one:
      name == ""             -> error
@@ -258,7 +258,6 @@ Fixpoint daw_add_all (seen : list bytes) (ix : idx) (hp : heap) (l : list attr) 
       if existsb (bytes_eqb (aname a)) seen then TErr
       else match encode_attr a with
            | EncErr => TErr
-           | EncPanic => TPanic
            | EncOk _ =>
              match heap_insert P hp a with
              | HErr => TErr
@@ -279,8 +278,7 @@ Fixpoint daw_add_all (seen : list bytes) (ix : idx) (hp : heap) (l : list attr) 
 Definition transition (attrs : list attr) (a : attr) : state * res :=
   match daw_add_all [] [] heap_empty (attrs ++ [a]) with
   | TErr => (Compact attrs, RErr)
-  | TPanic => (Compact attrs, RPanic)
-  | TFull => if p_ovf_err P then (Compact attrs, RErr)          (* daw.WriteToFile refuses *)
+  | TFull => if p_ovf_err P then (Compact attrs, RErr)          (* info check or daw.WriteToFile refuses *)
              else if p_limit P <? p_base P + (4 + p_info P) then (Compact attrs, RErr) else (Broken, ROk)
   | TOk ix hp => if p_limit P <? p_base P + (4 + p_info P) then (Compact attrs, RErr) else (Dense ix hp, ROk)
   end.
@@ -289,7 +287,6 @@ Definition transition (attrs : list attr) (a : attr) : state * res :=
 Definition write_compact (attrs : list attr) (a : attr) : state * res :=
   match encode_attr a with
   | EncErr => (Compact attrs, RErr)
-  | EncPanic => (Compact attrs, RPanic)
   | EncOk sz =>
     match replace_name (aname a) a attrs with
     | Some attrs' =>
@@ -307,7 +304,6 @@ Definition write_dense (ix : idx) (hp : heap) (a : attr) : state * res :=
   let st := Dense ix hp in
   match encode_attr a with
   | EncErr => (st, RErr)
-  | EncPanic => (st, RPanic)
   | EncOk sz =>
     let h := name_hash (aname a) in
     match idx_search h ix with
@@ -448,6 +444,6 @@ Definition NoHashCollision (name_hash : bytes -> N) (ns : list bytes) : Prop :=
 
 (* the parameter values of the current source tree for a dataset whose non-attribute messages take
    [base] bytes (datatype + dataspace + layout of a contiguous int32 rank-1 dataset: 58) *)
-Definition go_params (base : N) : params := mkParams base 255 8 18 371 65536 65517 false.
-(* the same with the two heap repairs applied *)
-Definition go_params_repaired (base : N) : params := mkParams base 255 8 18 371 65536 65517 true.
+Definition go_params (base : N) : params := mkParams base 255 8 18 371 65536 65517 true.
+(* the tree before 5ec600b (heap overflow not refused) *)
+Definition go_params_before_5ec600b (base : N) : params := mkParams base 255 8 18 371 65536 65517 false.
